@@ -733,6 +733,17 @@ func (t *Target) updateMetaLocked(clients func(*ctree.Leaf)) {
 	t.generateMetaUpdates(clients)
 }
 
+// metaLeafValue returns the value held by the metadata leaf v, or nil when the
+// leaf is absent or does not hold an update with a value. Targets can write
+// anything below "meta", so nothing about the stored leaf is assumed.
+func metaLeafValue(v interface{}) *pb.TypedValue {
+	n, ok := v.(*pb.Notification)
+	if !ok || len(n.GetUpdate()) == 0 {
+		return nil
+	}
+	return n.GetUpdate()[0].GetVal()
+}
+
 func (t *Target) generateMetaUpdates(clients func(*ctree.Leaf)) {
 	for value := range metadata.TargetBoolValues {
 		if t.excludedMeta.Contains(value) {
@@ -743,8 +754,8 @@ func (t *Target) generateMetaUpdates(clients func(*ctree.Leaf)) {
 			continue
 		}
 		path := metadata.Path(value)
-		prev := t.t.GetLeafValue(path)
-		if prev == nil || prev.(*pb.Notification).Update[0].Val.Value.(*pb.TypedValue_BoolVal).BoolVal != v {
+		prev := metaLeafValue(t.t.GetLeafValue(path))
+		if pv, ok := prev.GetValue().(*pb.TypedValue_BoolVal); !ok || pv.BoolVal != v {
 			noti := metaNotiBool(t.name, value, v)
 			if n, _ := t.gnmiUpdate(noti); n != nil {
 				if clients != nil {
@@ -763,8 +774,8 @@ func (t *Target) generateMetaUpdates(clients func(*ctree.Leaf)) {
 			continue
 		}
 		path := metadata.Path(value)
-		prev := t.t.GetLeafValue(path)
-		if prev == nil || prev.(*pb.Notification).Update[0].Val.Value.(*pb.TypedValue_IntVal).IntVal != v {
+		prev := metaLeafValue(t.t.GetLeafValue(path))
+		if pv, ok := prev.GetValue().(*pb.TypedValue_IntVal); !ok || pv.IntVal != v {
 			noti := metaNotiInt(t.name, value, v)
 			if n, _ := t.gnmiUpdate(noti); n != nil {
 				if clients != nil {
@@ -783,8 +794,8 @@ func (t *Target) generateMetaUpdates(clients func(*ctree.Leaf)) {
 			continue
 		}
 		path := metadata.Path(value)
-		prev := t.t.GetLeafValue(path)
-		if prev == nil || prev.(*pb.Notification).Update[0].Val.Value.(*pb.TypedValue_StringVal).StringVal != v {
+		prev := metaLeafValue(t.t.GetLeafValue(path))
+		if pv, ok := prev.GetValue().(*pb.TypedValue_StringVal); !ok || pv.StringVal != v {
 			noti := metaNotiStr(t.name, value, v)
 			if n, _ := t.gnmiUpdate(noti); n != nil {
 				if clients != nil {
